@@ -654,6 +654,18 @@ func main() {
 	addRound(1, 0, &osm.OSM{Nodes: osm.Nodes{{ID: 1}}}, "corpus-noversion", 1)
 	addRound(1, 0, &osm.OSM{}, "corpus-empty", 0)
 	addRound(1, 0, &osm.OSM{Version: "0.6", Relations: osm.Relations{{ID: 5}}, Ways: osm.Ways{{ID: 6}}}, "corpus-nil-members-nodes", 2)
+	// JSON whitespace wherever the grammar allows it, in particular inside empty arrays / objects
+	{
+		text := " \n{ \"elements\" : [ {\"type\":\"way\",\"id\":1,\"nodes\":[ ]} , {\"type\":\"way\",\"id\":2,\"nodes\":[\n]},\t{\"type\":\"relation\",\"id\":3,\"members\":[ \r\n ],\"tags\":{ }} ,{\"type\":\"node\",\"id\":4,\"lat\":1,\"lon\":2,\"tags\":{\t}}\n] , \"osm3s\" : { } }\n "
+		doc, err := readTree([]byte(text))
+		if err != nil {
+			panic(err)
+		}
+		exp := &osm.OSM{Ways: osm.Ways{{ID: 1}, {ID: 2}}, Relations: osm.Relations{{ID: 3}}, Nodes: osm.Nodes{{ID: 4, Lat: 1, Lon: 2}}}
+		for cfg := range configs {
+			w.Add(docCase(cfg, doc, exp, decodeDoc(cfg, []byte(text)), "corpus-whitespace/"+configs[cfg]))
+		}
+	}
 	// documents that repeat a key: encoding/json applies every occurrence in order (Model.dec_occs)
 	for _, text := range []string{
 		`{"elements":[{"type":"node","id":5,"id":null,"user":"a","user":null,"visible":true,"visible":null,"timestamp":"2012-01-01T00:00:00Z","timestamp":null}]}`,
